@@ -29,7 +29,11 @@ type TS struct {
 	ERising  bool  `json:"erising,omitempty"`
 	EFalling bool  `json:"efalling,omitempty"`
 	ELevel   int32 `json:"elevel,omitempty"`
-	EMulti   bool  `json:"emulti,omitempty"` // only meaningful in restored settings (PrepareRun forces it off)
+	EMulti   bool  `json:"emulti,omitempty"` // in restored settings PrepareRun forces it off; in a request see below
+	// A ChangeTriggerState request with EMulti on carries the EMTState the RPC layer derives from these; the
+	// harness only issues such requests when the record lengths in force make them REFUSED.
+	EMNMono   int  `json:"em_nmono,omitempty"`
+	EMZeroOff bool `json:"em_zero_off,omitempty"`
 }
 
 // ChanCfg describes one channel: signedness of its samples and the trigger settings restored at start (nil: none saved).
@@ -111,6 +115,27 @@ func (c Case) PeriodNs() int64 {
 		return roundint(1e9 / c.FRate)
 	}
 	return 1000000000 / c.Rate
+}
+
+// refusedBy tells whether EMTState.valid() rejects the request for these record lengths (Go restatement, used to
+// keep the generated requests refused; the model has its own).
+func (t TS) refusedBy(npre, nsamp int) bool {
+	zero := !t.EMZeroOff
+	return t.EMulti && ((zero && npre < 4) || (zero && nsamp-npre < 4) || t.EMNMono > nsamp-npre)
+}
+
+// reqTerm renders a ChangeTriggerState request (with the EMTState parameters when it switches edge-multi on).
+func (t TS) reqTerm(c Case) string {
+	if !t.EMulti {
+		return t.term(c)
+	}
+	exact := c.Rate
+	if c.FRate > 0 {
+		exact = 0
+	}
+	return fmt.Sprintf("(TSm %s %s %d %s %s %d %s %s %s %s %s %d %s)", lib.B(t.Auto), lib.Z(DelaySamples(t.DelayNs, c.SampleRate(), exact)), t.Veto,
+		lib.B(t.Level), lib.B(t.LRising), t.LLevel, lib.B(t.Edge), lib.B(t.ERising), lib.B(t.EFalling), lib.Z(int64(t.ELevel)), lib.B(t.EMulti),
+		int32(t.EMNMono), lib.B(!t.EMZeroOff))
 }
 
 func (t TS) term(c Case) string {
@@ -356,7 +381,18 @@ func Run(c Case) lib.Result {
 			if !ok {
 				continue
 			}
-			fts := dastard.FullTriggerState{ChannelIndices: append([]int(nil), o.Chans...), TriggerState: o.TS.goState()}
+			gts := o.TS.goState()
+			if o.TS.EMulti {
+				if !o.TS.refusedBy(npre, nsamp) {
+					continue // would switch edge-multi on (C08): not part of these cases
+				}
+				var err error
+				gts, err = dastard.VerifWithEdgeMultiC01(gts, o.TS.EMNMono, o.TS.EMZeroOff, 100)
+				if err != nil {
+					panic(err)
+				}
+			}
+			fts := dastard.FullTriggerState{ChannelIndices: append([]int(nil), o.Chans...), TriggerState: gts}
 			e := b.Source().ChangeTriggerState(&fts)
 			seen := map[int]bool{}
 			for _, ci := range o.Chans {
@@ -364,9 +400,14 @@ func Run(c Case) lib.Result {
 					continue
 				}
 				seen[ci] = true
-				terms[ci] = append(terms[ci], fmt.Sprintf("CT %s %s", o.TS.term(c), lib.B(e != nil)))
+				terms[ci] = append(terms[ci], fmt.Sprintf("CT %s %s", o.TS.reqTerm(c), lib.B(e != nil)))
 				ob = append(ob, ChanObs{Chan: ci, Err: e != nil})
-				cur[ci] = *o.TS
+				if e == nil {
+					cur[ci] = *o.TS
+				}
+			}
+			if e != nil {
+				tags["trigger-request-refused"] = true
 			}
 			tags["reconfigure-trigger"] = true
 		case "CL":
